@@ -4,6 +4,9 @@ package qframe
 // like/ilike identically; nulls never match.
 
 import (
+	"regexp"
+
+	"github.com/tobgu/qframe/config/newqf"
 	"github.com/tobgu/qframe/internal/vx"
 )
 
@@ -69,6 +72,71 @@ func VX_C18_columns() {
 				nn += vx.B2I(!s.null[p])
 			}
 			vx.Check(len(rs.index) == nn, "every non-null cell B matches")
+		}
+	}
+	vx.Reach("end")
+}
+
+// VX_C18_filter_seq: the same pattern used by like and by ilike filters one after the other (both
+// orders, twice) on string and enum columns with concrete cells: every call follows its own case rule
+// whatever ran before it (state carried between calls). The rows are decided by Go's regexp on the
+// documented translation of the pattern.
+func VX_C18_filter_seq() {
+	pattern := vx.ParamStr("pattern") // contains a metacharacter
+	cells := []string{"abc", "ABC", "aXc", "xabc", "Abx", "abcd", ""}
+	P := len(cells)
+	sc := vxCol{typ: "string", s: cells, null: make([]bool, P)}
+	ix := vxIota(P)
+	k := vxConc(vx.IntN(0, P-1), P)
+	ix[0], ix[k] = ix[k], ix[0]
+	f := vxFrame([]string{"s"}, []vxCol{sc}, ix)
+	g := New(map[string]interface{}{"e": append([]string{}, cells...)}, newqf.Enums(map[string][]string{"e": nil}))
+	vx.Assume(g.Err == nil)
+	want := func(ci bool) []uint32 {
+		p := pattern
+		rx := ""
+		if ci {
+			rx = "(?i)"
+		}
+		if len(p) > 0 && p[0] == '%' {
+			p = p[1:]
+		} else {
+			rx += "^"
+		}
+		tail := "$"
+		if len(p) > 0 && p[len(p)-1] == '%' {
+			p = p[:len(p)-1]
+			tail = ""
+		}
+		re := regexp.MustCompile(rx + p + tail)
+		var out []uint32
+		for _, r := range ix {
+			if re.MatchString(cells[r]) {
+				out = append(out, r)
+			}
+		}
+		return out
+	}
+	order := []string{"like", "ilike", "like", "ilike"}
+	if vx.ParamBool("first") {
+		order = []string{"ilike", "like", "ilike", "like"}
+	}
+	for step, cmp := range order {
+		col, fr := "s", f
+		if step >= 2 {
+			col, fr = "e", g.withIndex(append([]uint32{}, ix...))
+		}
+		r := fr.Filter(Filter{Column: col, Comparator: cmp, Arg: pattern})
+		vx.Check(r.Err == nil, "valid pattern: no error")
+		if r.Err != nil {
+			return
+		}
+		w := want(cmp == "ilike")
+		vx.Check(len(r.index) == len(w), "each filter follows its own case rule (row count)")
+		if len(r.index) == len(w) {
+			for j := range w {
+				vx.Check(r.index[j] == w[j], "each filter follows its own case rule")
+			}
 		}
 	}
 	vx.Reach("end")
